@@ -21,6 +21,8 @@ from Go's package POINTERS to the model's ids that the cross-architecture filter
    cache, a concurrent duplicate parse — finding F14b, witness `F14b_witness`).  The repaired wiring passes the
    resolver's own objects, so the hypothesis holds by construction whatever the index cache does
    (`effectiveDq_own`), for every behaviour of the fetches of the SIBLINGS (their generation is irrelevant).
+   `effectiveDq_own_eq` / `glue_available_partial`: with distinct ids the wired filter is literally the model's
+   list, so C14's headline holds for the wired resolution.
 -/
 import Apko.Model.Glue
 import Apko.Generated.Glue
@@ -286,6 +288,82 @@ theorem effectiveDq_refetched (archs : List (Text × Universe)) (self : Text) (g
   apply List.eq_nil_iff_forall_not_mem.mpr
   intro i hi
   exact hre ((effectiveDq_iff archs self g0 gen i).mp hi).2
+
+theorem filter_ids_eq {l : List Pkg} (hd : l.Pairwise (fun a b => a.id ≠ b.id)) (P : Pkg → Bool) :
+    (l.map (·.id)).filter (fun i => decide (i ∈ (l.filter P).map (·.id))) = (l.filter P).map (·.id) := by
+  induction l with
+  | nil => simp
+  | cons a as ih =>
+    have ha := (List.pairwise_cons.mp hd).1
+    have has := (List.pairwise_cons.mp hd).2
+    have tail : (as.map (·.id)).filter (fun i => decide (i ∈ ((a :: as).filter P).map (·.id))) =
+        (as.map (·.id)).filter (fun i => decide (i ∈ (as.filter P).map (·.id))) := by
+      apply List.filter_congr
+      intro i hi
+      obtain ⟨b, hb, rfl⟩ := List.mem_map.mp hi
+      cases hP : P a with
+      | false => simp [List.filter_cons, hP]
+      | true =>
+        simp only [List.filter_cons, hP, if_true, List.map_cons, List.mem_cons, decide_eq_decide]
+        constructor
+        · rintro (h | h)
+          · exact absurd h.symm (ha b hb)
+          · exact h
+        · exact Or.inr
+    cases hP : P a with
+    | false =>
+      have hn : a.id ∉ ((a :: as).filter P).map (·.id) := by
+        simp only [List.filter_cons, hP]
+        intro h
+        obtain ⟨b, hb, hid⟩ := List.mem_map.mp h
+        exact ha b (List.mem_filter.mp hb).1 hid.symm
+      rw [List.map_cons, List.filter_cons, if_neg (by simpa using hn), tail, ih has]
+      simp [List.filter_cons, hP]
+    | true =>
+      have hy : a.id ∈ ((a :: as).filter P).map (·.id) := by simp [List.filter_cons, hP]
+      rw [List.map_cons, List.filter_cons, if_pos (by simpa using hy), tail, ih has]
+      simp [List.filter_cons, hP]
+
+/-- T `effectiveDq_own_eq`: for a universe with distinct ids the repaired wiring hands the resolver literally the
+model's list, so every theorem of C14 about `resolve c w (disqualifyDifference archs self)` is a theorem about
+the wired resolution (`glue_available_partial`) -/
+theorem effectiveDq_own_eq (archs : List (Text × Universe)) (self : Text) (u : Universe) (g0 : Nat)
+    (gen : Text → Nat) (hu : lookupT archs self = some u) (hd : C02.IdsDistinct u) (hown : gen self = g0) :
+    effectiveDq archs self g0 gen = disqualifyDifference archs self := by
+  have hcongr : effectiveDq archs self g0 gen =
+      (u.all.map (·.id)).filter (fun i => decide (i ∈ disqualifyDifference archs self)) := by
+    have hm : ∀ i, i ∈ effectiveDq archs self g0 gen ↔ i ∈ disqualifyDifference archs self :=
+      effectiveDq_own archs self g0 gen hown
+    unfold effectiveDq at hm ⊢
+    simp only [hu] at hm ⊢
+    apply List.filter_congr
+    intro i hi
+    have := hm i
+    simp only [List.mem_filter, hi, true_and] at this
+    cases hc : (dqObjects archs gen).contains (self, i, g0) with
+    | true => simpa using this.mp hc
+    | false =>
+      have hne : ¬ i ∈ disqualifyDifference archs self := fun h => by
+        have := this.mpr h; rw [hc] at this; cases this
+      simpa using hne
+  rw [hcongr]
+  unfold disqualifyDifference
+  by_cases hl : archs.length = 1
+  · simp [hl]
+  · simp only [hl, if_false, hu]
+    exact filter_ids_eq hd _
+
+/-- C14's headline through the wiring: two or more architectures, the repaired `ResolveWorld` (own objects under
+its own key), no install_if expansion ⇒ every member of the install set exists on every other architecture —
+whatever object generations the sibling fetches returned -/
+theorem glue_available_partial (archs : List (Text × Universe)) (self : Text) (u : Universe)
+    (hl : archs.length ≠ 1) (hu : lookupT archs self = some u) (c : Cfg) (hc : c.u = u) (hd : C02.IdsDistinct u)
+    (g0 : Nat) (gen : Text → Nat) (hown : gen self = g0)
+    (w : List Text) (r : Resolution)
+    (h : resolve c w (effectiveDq archs self g0 gen) = .ok r) (hf : "F02b" ∉ r.flags) :
+    Driver.Resolver.firstUnavailable archs self r.install = none := by
+  rw [effectiveDq_own_eq archs self u g0 gen hu hd hown] at h
+  exact C14.resolve_available_partial archs self u hl hu c hc w r h hf
 
 /-- F14b witness (corpus/glue-avail/F14b-*.json): lib-1.1-r0 exists for x86_64 only.  The model disqualifies it
 (id 1); with re-fetched objects the resolver sees an empty filter and selects it. -/
